@@ -712,6 +712,7 @@ def assemble(unit_path, canary=None):
             "item": what, "kind": item.kind, "file": rel, "repo_line": repo_line, "sha1": sha,
             "out_start": start_line, "out_end": cur_line - 1,
             "has_contract": bool(spec.strip()),
+            "assumed": item.kind == "fn" and opts.get("body") == "assumed",
             "n_clause_lines": len([l for l in spec.split("\n") if l.strip() and not l.strip().startswith("//")])
             + sum(len([l for l in t.split("\n") if l.strip()]) for t in loops_spec.values()),
         })
